@@ -370,6 +370,17 @@ type CaseSpec struct {
 	// Huge > 0: not a drawn table but one of more than Huge full blocks (sequential keys handed over in descending
 	// order), ingested twice (one worker in memory; many workers with spilled runs); events projected by compressPlaced
 	Huge int `json:"huge,omitempty"`
+	// Fat > 0: a table of Fat rows each holding one cell of 40,000 bytes (fewer than 255 consecutive rows make up
+	// several MiB: a block that is cut by anything but the row count no longer has 255 rows)
+	Fat int `json:"fat,omitempty"`
+}
+
+func fatTable(rows int) *Table {
+	t := &Table{Cols: []string{"id", "doc"}, PK: []string{"id"}}
+	for j := rows - 1; j >= 0; j-- {
+		t.Rows = append(t.Rows, []string{fmt.Sprintf("f%05d", j), strings.Repeat(string(rune('a'+j%26)), 39999) + fmt.Sprint(j%10)})
+	}
+	return t
 }
 
 // compressPlaced projects the event of a huge table further (TLC takes minutes over sequences of 10^5 entries):
@@ -430,12 +441,15 @@ const resetLine = `{"op":"reset","cfg":{},"inkeys":[],"inids":[],"out":[],"rows"
 // RunCase generates one table, ingests it under several configurations with the real
 // code and returns the trace events and table observations.
 func RunCase(cs CaseSpec) (events []interface{}, obs []interface{}) {
-	if cs.Huge > 0 {
+	if cs.Huge > 0 || cs.Fat > 0 {
 		events = append(events, json.RawMessage(resetLine))
-		t := hugeTable(cs.Huge)
+		t, kind := hugeTable(cs.Huge), "huge"
+		if cs.Fat > 0 {
+			t, kind = fatTable(cs.Fat), "fat"
+		}
 		db := tbl.NewSafeStore()
-		for v, cfg := range []Cfg{{Seed: cs.Seed, Variant: 0, Kind: "huge", Workers: 1},
-			{Seed: cs.Seed, Variant: 1, Kind: "huge", Workers: cs.MaxWorkers, RunSize: totalBytes(t.Rows)/7 + 1}} {
+		for v, cfg := range []Cfg{{Seed: cs.Seed, Variant: 0, Kind: kind, Workers: 1},
+			{Seed: cs.Seed, Variant: 1, Kind: kind, Workers: cs.MaxWorkers, RunSize: totalBytes(t.Rows)/7 + 1}} {
 			ev, _ := IngestVariant(t, t.Rows, cfg, 0, db)
 			if ev == nil {
 				continue
@@ -556,6 +570,9 @@ func RecCase(i int, raw []byte) child.Result {
 	child.EmitBatch("tableobs", obs)
 	if cs.Huge > 0 {
 		return child.Pass("huge")
+	}
+	if cs.Fat > 0 {
+		return child.Pass("fat")
 	}
 	_, kind, _ := GenCase(cs.Seed, cs.Idx)
 	return child.Pass(kind)
